@@ -257,7 +257,7 @@ Theorem writeback_locked out inv r :
         match lookup inv k with Some (_, c') => c = c' | None => In (k, (s, c)) out end).
 Proof.
   unfold writeback, update_inplace.
-  destruct (forallb _ inv); [|discriminate]. intros H. injection H as <-.
+  destruct (existsb _ inv || _); [|discriminate]. intros H. injection H as <-.
   repeat split.
   - rewrite map_map. apply map_ext. intros [k [s c]]. cbn. destruct (lookup inv k) as [[s' c']|]; reflexivity.
   - rewrite map_map. apply map_ext. intros [k [s c]]. cbn. destruct (lookup inv k) as [[s' c']|]; reflexivity.
@@ -265,14 +265,27 @@ Proof.
     destruct (lookup inv k0) as [[s' c']|] eqn:El; injection E as <- <- <-; rewrite El; [reflexivity|exact Hin].
 Qed.
 
-(* a key of the modified object that the locked original does not have is refused *)
-Theorem writeback_locked_new_key out inv k v :
-  In (k, v) inv -> lookup out k = None -> writeback true out inv = None.
+(* a key of the modified object that the locked original does not have: never added; refused only when the two objects
+   have no key in common *)
+Theorem writeback_locked_new_key out inv k v r :
+  In (k, v) inv -> lookup out k = None -> writeback true out inv = Some r -> lookup r k = None.
 Proof.
-  intros Hin Hl. unfold writeback, update_inplace.
-  replace (forallb _ inv) with false; [reflexivity|].
-  symmetry. apply not_true_iff_false. intros F. rewrite forallb_forall in F. specialize (F _ Hin). cbn in F.
-  now rewrite Hl in F.
+  intros Hin Hl H. destruct (writeback_locked _ _ _ H) as [Hk _].
+  assert (G : forall e, lookup e k = None <-> ~ In k (map fst e)).
+  { induction e as [|[k' v'] e IH]; cbn; [tauto|]. destruct (String.eqb k' k) eqn:E.
+    - apply String.eqb_eq in E. subst. split; [discriminate|intros X; exfalso; apply X; now left].
+    - apply String.eqb_neq in E. rewrite IH. tauto. }
+  apply G. rewrite Hk. now apply G.
+Qed.
+
+Theorem writeback_locked_disjoint out inv : inv <> [] ->
+  (forall kv, In kv inv -> lookup out (fst kv) = None) -> writeback true out inv = None.
+Proof.
+  intros Hne H. unfold writeback, update_inplace.
+  replace (existsb (fun kv => has_key out (fst kv)) inv) with false.
+  - destruct inv; [congruence|reflexivity].
+  - symmetry. apply not_true_iff_false. intros F. apply existsb_exists in F. destruct F as [kv [Hin F]].
+    unfold has_key in F. now rewrite (H kv Hin) in F.
 Qed.
 
 (* unlocked original: keys of the original are kept in order, new keys of inv are admitted after them *)
